@@ -94,6 +94,9 @@ func vpDocMember_IRI(w *vpDocWriter, term string, v IRI, variant int) {
 func vpDocMember_Type(w *vpDocWriter, term string, v ActivityVocabularyType, variant int) {
 	w.member(term, vpDocString(string(v)))
 }
+func vpDocMember_TypeName(w *vpDocWriter, term string, v ActivityVocabularyType, variant int) {
+	w.member(term, vpDocString(string(v)))
+}
 func vpDocMember_Mime(w *vpDocWriter, term string, v MimeType, variant int) {
 	w.member(term, vpDocString(string(v)))
 }
